@@ -189,7 +189,7 @@ def note_refusals(rep, obs):
     rep.notes['calls_refused_by_implementation'] = len(refused)
     # running out of memory / recursion depth / time on a small request is not a refusal: no symbol was produced for a valid input
     for o in refused:
-        if o['outcome'].get('exc') in ('MemoryError', 'RecursionError', 'Timeout'):
+        if o['outcome'].get('exc') in ('MemoryError', 'RecursionError'):      # (a time-out is inconclusive under load: not judged)
             rep.violation({'call': o['_call'], 'failing_clauses': ['resource_exhaustion'], 'props': o.get('props', []), 'observed': o['outcome']},
                           f"{engine.brief_call(o['_call'])} ended with {o['outcome'].get('exc')} (no symbol for a valid input)")
     if refused:
